@@ -126,6 +126,18 @@ CLAIMED = {
     note='Decides behavioural equality through syntactic equality: a harmless rewrite of one copy breaks the obligation (then the differential '
          'search decides whether an input is reported). __init__ is excluded. Trusted: tools/gen_helpers.py.',
     technique='regenerated model (Python ast -> Coq terms) + Coq kernel computation + lifting theorem; differential execution as search', ref='6/C20'),
+ 'C05': dict(
+    text='Unbounded Coq theorems about CompositeBaseToken.get modelled as a generic interpreter over the token-set table REGENERATED from the live '
+         'classes on every run: for any table and fuel the interpreter never drops, duplicates or reorders a token (yield ++ rest = input); an '
+         'accepted formula\'s tree consumed all tokens in order (whole or reject, after the F1 fix); every accepted tree instantiates the token sets '
+         'of its classes (no function call with an argument list the grammar does not define); fuel only affects the recursion limit; plus '
+         'kernel-computed facts on the regenerated tables (separators share one class, truncation witnesses rejected, tables consistent). '
+         'Correspondence: the Gallina lexer (source regexes through the Gallina regex engine) and parser against Lexer.parse/AstBuilder.parse on '
+         'base formulas of every function with token-level mutations; whitespace/separator variants, token coverage and lexer text coverage '
+         'checked on the implementation.',
+    note='Printable ASCII. The lexer model depends on Base/Regex.v (validated against Python re). Exponential parse time limits nesting depth '
+         '(20 s alarm). Known finding: blank_inside_boolean_call.',
+    technique='regenerated tables + Coq proof (induction on fuel/alternatives) + vm_compute correspondence', ref='6/C05'),
 }
 
 ids = [json.loads(l)['id'] for l in open('/verif/properties.jsonl')]
